@@ -28,6 +28,7 @@ import (
 	"sort"
 	"strings"
 	"sync"
+	"sync/atomic"
 	"testing"
 	"testing/iotest"
 	"time"
@@ -227,6 +228,26 @@ type decCase struct {
 	Src      string `json:"src"` // source reader style over the ciphertext
 	CBuf     int    `json:"cbuf"`
 	Override string `json:"override"`
+	Mode     string `json:"mode"` // "" | slow-unwrap (the unwrap callback runs another round trip first) | two-streams (two Decrypt calls, then both streams are read)
+}
+
+// poison-on-Put: while poisonOn is set, every buffer handed back to v1.BufPool is overwritten first (hook point
+// "bufpool.put"), so that any view into a pooled buffer that outlives the Put is visibly destroyed - deterministically,
+// without needing a concurrent user of the pool.
+var poisonOn atomic.Bool
+
+func installPoison() {
+	v1.VerifHook = func(point string, arg any) {
+		if point != "bufpool.put" || !poisonOn.Load() {
+			return
+		}
+		if b, ok := arg.(*[]byte); ok && b != nil {
+			for i := range *b {
+				(*b)[i] = 0xA5
+			}
+		}
+	}
+	poisonOn.Store(true)
 }
 
 type docCase struct {
@@ -428,7 +449,7 @@ func runDoc(b *tv.Batch, cs docCase) {
 		pt = storedPlain[cs.File]
 	}
 	b.Start(tv.M{"len": len(pt), "S": segSize, "tag": tagSize, "cipher": cs.Cipher, "alg": cs.Alg, "keyName": cs.KeyName,
-		"decKeyName": cs.DecKeyName, "omit": cs.Omit, "producer": cs.Producer, "pair": cs.Pair, "src": cs.Src, "cbuf": cs.CBuf, "file": cs.File})
+		"decKeyName": cs.DecKeyName, "omit": cs.Omit, "producer": cs.Producer, "pair": cs.Pair, "src": cs.Src, "cbuf": cs.CBuf, "file": cs.File, "hmax": segSize})
 	defer r.Ev("end", nil)
 	wrapFn, unwrapFn := pair(cs.Pair)
 	var fk, wfk []byte
@@ -451,7 +472,21 @@ func runDoc(b *tv.Batch, cs docCase) {
 		}
 		enc, err := v1.Encrypt(mkReader(cs.Src, pt, ptBounds(len(pt)), cs.Seed), opts)
 		if err != nil {
-			r.Ev("encfail", tv.M{"stage": "call", "err": err.Error()})
+			k := cs.DecKeyName
+			if cs.Omit {
+				k = ""
+			} else if k == "" {
+				k = cs.KeyName
+			}
+			if len(wfk) == 0 {
+				wfk = make([]byte, 32)
+			}
+			cph := encref.CipherIDs[cs.Cipher]
+			if cs.Cipher == "" {
+				cph = 1
+			}
+			would := encref.HeaderLen(encref.Manifest{KeyName: k, Kw: encref.KwIDs[resolveAlg(cs.Alg)], WFK: wfk, Cph: cph, NoncePrefix: make([]byte, encref.NPLen)})
+			r.Ev("encfail", tv.M{"stage": "call", "err": err.Error(), "hdrWouldBe": would})
 			return
 		}
 		var buf bytes.Buffer
@@ -463,7 +498,7 @@ func runDoc(b *tv.Batch, cs docCase) {
 				break
 			}
 			if err != nil {
-				r.Ev("encfail", tv.M{"stage": "stream", "err": err.Error()})
+				r.Ev("encfail", tv.M{"stage": "stream", "err": err.Error(), "hdrWouldBe": 0})
 				return
 			}
 		}
@@ -543,20 +578,135 @@ func runDoc(b *tv.Batch, cs docCase) {
 			}
 			r.Ev("dec", tv.M{"by": "ref", "override": d.Override, "src": d.Src, "cbuf": d.CBuf, "n": len(out), "equal": bytes.Equal(out, pt), "term": term})
 		case "real":
-			in := mkReader(d.Src, doc, ctBounds(h.Len, len(doc)), cs.Seed)
-			dec, err := v1.Decrypt(in, v1.DecryptOptions{KeyName: d.Override,
-				UnwrapKeyFn: func(w []byte, alg, name string, nonce, tag []byte) ([]byte, error) {
-					r.Ev("unwrap", tv.M{"override": d.Override, "alg": alg, "keyName": name})
-					return unwrapFn(w, alg, name, nonce, tag)
-				}})
-			if err != nil {
-				r.Ev("dec", tv.M{"by": "real", "override": d.Override, "src": d.Src, "cbuf": d.CBuf, "n": 0, "equal": false, "term": "decrypt-err", "err": err.Error()})
-				continue
+			n, eq, term, errs := realDecrypt(r, doc, pt, h.Len, cs, d, unwrapFn, true)
+			m := tv.M{"by": "real", "override": d.Override, "src": d.Src, "cbuf": d.CBuf, "mode": d.Mode, "n": n, "equal": eq, "term": term, "err": errs}
+			if (term != "eof" || !eq) && poisonOn.Load() {
+				// does the same decryption succeed when pooled buffers are left alone after Put?
+				poisonOn.Store(false)
+				_, eq2, term2, _ := realDecrypt(r, doc, pt, h.Len, cs, d, unwrapFn, false)
+				poisonOn.Store(true)
+				m["poisonOnly"] = term2 == "eof" && eq2
 			}
-			n, eq, term := drain(dec, d.CBuf, pt)
-			r.Ev("dec", tv.M{"by": "real", "override": d.Override, "src": d.Src, "cbuf": d.CBuf, "n": n, "equal": eq, "term": termClass(term), "err": term.Error()})
+			r.Ev("dec", m)
 		}
 	}
+}
+
+// realDecrypt runs the real Decrypt over doc in the given mode and returns (bytes read, equal to pt, terminal class, error text).
+func realDecrypt(r *rec, doc, pt []byte, hdrLen int, cs docCase, d decCase, unwrapFn encref.UnwrapFn, log bool) (int, bool, string, string) {
+	open := func() (io.Reader, error) {
+		in := mkReader(d.Src, doc, ctBounds(hdrLen, len(doc)), cs.Seed)
+		return v1.Decrypt(in, v1.DecryptOptions{KeyName: d.Override,
+			UnwrapKeyFn: func(w []byte, alg, name string, nonce, tag []byte) ([]byte, error) {
+				if log {
+					r.Ev("unwrap", tv.M{"override": d.Override, "alg": alg, "keyName": name})
+				}
+				if d.Mode == "slow-unwrap" {
+					// a slow key vault: meanwhile another complete round trip goes through the same buffer pool
+					iw, iu := encref.IdentityPair()
+					other := plaintext(segSize+77, 31)
+					if enc, err := v1.Encrypt(bytes.NewReader(other), v1.EncryptOptions{WrapKeyFn: iw, KeyName: "other", Algorithm: v1.KeyAlgorithmAES256KW}); err == nil {
+						if od, err := io.ReadAll(enc); err == nil {
+							if dd, err := v1.Decrypt(bytes.NewReader(od), v1.DecryptOptions{UnwrapKeyFn: iu}); err == nil {
+								_, _ = io.Copy(io.Discard, dd)
+							}
+						}
+					}
+					time.Sleep(time.Millisecond)
+				}
+				return unwrapFn(w, alg, name, nonce, tag)
+			}})
+	}
+	dec, err := open()
+	if err != nil {
+		return 0, false, "decrypt-err", err.Error()
+	}
+	if d.Mode == "two-streams" {
+		// a caller that opens two streams first and reads them afterwards, the second one first
+		dec2, err := open()
+		if err != nil {
+			_, _ = io.Copy(io.Discard, dec)
+			return 0, false, "decrypt-err", "second stream: " + err.Error()
+		}
+		n2, eq2, term2 := drain(dec2, d.CBuf, pt)
+		n1, eq1, term1 := drain(dec, d.CBuf, pt)
+		if term2 != io.EOF || !eq2 {
+			return n2, false, termClass(term2), "second stream: " + term2.Error()
+		}
+		return n1, eq1, termClass(term1), "first stream: " + term1.Error()
+	}
+	n, eq, term := drain(dec, d.CBuf, pt)
+	return n, eq, termClass(term), term.Error()
+}
+
+// header-size boundary: the header is limited to one segment; the key name is its only unbounded field.
+var hdrBoundary = tv.M{}
+
+func tryEncrypt(cs docCase) bool {
+	wrapFn, _ := pair(cs.Pair)
+	enc, err := v1.Encrypt(bytes.NewReader([]byte("x")), v1.EncryptOptions{WrapKeyFn: wrapFn, Algorithm: v1.KeyAlgorithm(cs.Alg), KeyName: cs.KeyName,
+		DecryptionKeyName: cs.DecKeyName, OmitKeyName: cs.Omit})
+	if err != nil {
+		return false
+	}
+	_, err = io.Copy(io.Discard, enc)
+	return err == nil
+}
+
+func hdrBoundaryCases(thorough bool, seed int64) []docCase {
+	var out []docCase
+	decs := func(ovr string) []decCase {
+		return []decCase{{By: "ref", Override: ovr}, {By: "real", Src: "bytes.Reader", CBuf: 4096, Override: ovr}, {By: "real", Src: "b-1+0+1", CBuf: segSize + 1, Override: ovr},
+			{By: "real", Src: "half", CBuf: 1000, Override: ovr}, {By: "real", Src: "dataerr", CBuf: 1 << 20, Override: ovr}, {By: "real", Src: "whole", CBuf: 512, Override: ovr, Mode: "two-streams"}}
+	}
+	type cfg struct {
+		pair, alg, ch string
+		viaDec        bool // the long name is DecryptionKeyName (KeyName stays short)
+	}
+	cfgs := []cfg{{"identity", "A256KW", "a", false}, {"kit", "RSA-OAEP-256", "a", false}, {"identity", "AES", "<", false}, {"kit", "RSA", "k", true}}
+	if thorough {
+		cfgs = append(cfgs, cfg{"kit", "RSA-OAEP-256", "\"", false}, cfg{"identity", "A256KW", "\u00e9", true})
+	}
+	for _, c := range cfgs {
+		mk := func(klen int, l int) docCase {
+			cs := docCase{Producer: "real", Len: l, Cipher: "AES-GCM", Alg: c.alg, KeyName: strings.Repeat(c.ch, klen), Pair: c.pair, Src: "whole", CBuf: 4096, Seed: seed + int64(klen)}
+			if c.viaDec {
+				cs.KeyName, cs.DecKeyName = "enc-key", strings.Repeat(c.ch, klen)
+			}
+			return cs
+		}
+		lo, hi := 1, 70000 // Encrypt succeeds at lo, fails at hi
+		if !tryEncrypt(mk(lo, 1)) || tryEncrypt(mk(hi, 1)) {
+			hdrBoundary[fmt.Sprintf("%s/%s/%q", c.pair, c.alg, c.ch)] = "no boundary between 1 and 70000"
+			lo = 65000
+		} else {
+			for hi-lo > 1 {
+				mid := (lo + hi) / 2
+				if tryEncrypt(mk(mid, 1)) {
+					lo = mid
+				} else {
+					hi = mid
+				}
+			}
+			hdrBoundary[fmt.Sprintf("%s/%s/%q", c.pair, c.alg, c.ch)] = lo
+		}
+		for k := lo - 3; k <= lo+3; k++ {
+			cs := mk(k, 5)
+			cs.Decs = decs("")
+			out = append(out, cs)
+		}
+		cs := mk(lo, segSize+1)
+		cs.Decs = decs("")
+		out = append(out, cs)
+		// OmitKeyName: the key name does not go into the header, any length must work (with an explicit key name at Decrypt)
+		for _, k := range []int{lo + 3, 70000} {
+			cs := mk(k, 5)
+			cs.Omit = true
+			cs.Decs = decs("ovr-key")
+			out = append(out, cs)
+		}
+	}
+	return out
 }
 
 var allAlgs = []string{"A256KW", "A128CBC-NOPAD", "A192CBC-NOPAD", "A256CBC-NOPAD", "RSA-OAEP-256", "AES", "RSA"}
@@ -596,6 +746,10 @@ func docCases(thorough bool, rng *rand.Rand) []docCase {
 			}
 			ds = append(ds, decCase{By: "real", Src: st, CBuf: cb, Override: ovr})
 		}
+		// poisoned-pool scenarios: header and payload in one read / many reads, slow unwrap, two streams opened before reading
+		ds = append(ds, decCase{By: "real", Src: "whole", CBuf: 4096, Override: ovr, Mode: "two-streams"},
+			decCase{By: "real", Src: styles[0], CBuf: segSize, Override: ovr, Mode: "slow-unwrap"},
+			decCase{By: "real", Src: "b-1+0+1", CBuf: 1000, Override: ovr, Mode: "two-streams"})
 		if omit {
 			ds = append(ds, decCase{By: "real", Src: "whole", CBuf: segSize, Override: ""}) // must fail with "key missing" or succeed correctly
 		}
@@ -650,6 +804,9 @@ func docCases(thorough bool, rng *rand.Rand) []docCase {
 				}
 			}
 			ds = append(ds, decCase{By: "real", Src: "onebyte", CBuf: 1}, decCase{By: "real", Src: "half", CBuf: 3}, decCase{By: "real", Src: "dataerr", CBuf: 1 << 20})
+			for _, st := range []string{"whole", "whole-eof", "bytes.Reader", "onebyte", "split:100", "split:170"} {
+				ds = append(ds, decCase{By: "real", Src: st, CBuf: 64, Mode: "two-streams"}, decCase{By: "real", Src: st, CBuf: 64, Mode: "slow-unwrap"})
+			}
 			out = append(out, docCase{Producer: "real", Len: l, Cipher: allCiphers[ci], Alg: "A256KW", KeyName: "k", Pair: "identity", Src: "whole", CBuf: 100,
 				Seed: seed + int64(i), Decs: ds})
 			i++
@@ -670,6 +827,9 @@ func docCases(thorough bool, rng *rand.Rand) []docCase {
 			}
 		}
 	}
+	// key-name length across the maximum header size
+	out = append(out, hdrBoundaryCases(thorough, seed+int64(i))...)
+	i = len(out)
 	// stored testdata of the repository
 	if ents, err := os.ReadDir(filepath.Join(repoDir(), "schemes", "enc", "v1", "testdata")); err == nil {
 		for _, en := range ents {
@@ -704,12 +864,12 @@ type segfnCase struct {
 // open the README sealing.  One trace per (cipher, N).
 func runSegFn(b *tv.Batch, cs segfnCase) {
 	b.Start(tv.M{"len": 0, "S": segSize, "tag": tagSize, "cipher": cs.Cipher, "alg": "A256KW", "keyName": "k", "decKeyName": "", "omit": false,
-		"producer": "segfn", "N": int64(cs.N)})
+		"producer": "segfn", "N": int64(cs.N), "hmax": segSize})
 	fk, np := plaintext(32, int64(cs.N)+5), plaintext(7, int64(cs.N)+6)
 	cph := encref.CipherIDs[cs.Cipher]
 	enc, dec, err := v1.VerifSegmentFns(fk, np, v1.Cipher(cs.Cipher))
 	if err != nil {
-		b.Ev("encfail", tv.M{"stage": "call", "err": err.Error()})
+		b.Ev("encfail", tv.M{"stage": "call", "err": err.Error(), "hdrWouldBe": 0})
 		b.Ev("end", nil)
 		return
 	}
@@ -841,6 +1001,7 @@ func TestCheck(t *testing.T) {
 	}()
 	thorough := ev.Thorough()
 	rng := rand.New(rand.NewSource(ev.Seed()))
+	installPoison()
 
 	// 1. exhaustive model checks (in parallel with the drivers below)
 	var mcWG sync.WaitGroup
@@ -850,16 +1011,29 @@ func TestCheck(t *testing.T) {
 		defer mcWG.Done()
 		mcFraming = mcRun(e, "EncFraming", ev.Pick("MC_framing_small.cfg", "MC_framing_big.cfg"), ev.Pick(4*time.Minute, 30*time.Minute), false)
 		mcFormat = mcRun(e, "EncV1Format", "MC_format.cfg", 5*time.Minute, false)
-		for _, d := range []string{"MC_framing_defect_swallow.cfg", "MC_framing_defect_nocarry.cfg", "MC_framing_defect_eager-last.cfg"} {
-			mcRun(e, "EncFraming", d, 3*time.Minute, true)
+		// the defect variants (each must be rejected by TLC), three at a time
+		var dw sync.WaitGroup
+		sem := make(chan struct{}, 3)
+		defect := func(module, cfg string) {
+			dw.Add(1)
+			go func() {
+				defer dw.Done()
+				sem <- struct{}{}
+				defer func() { <-sem }()
+				mcRun(e, module, cfg, 3*time.Minute, true)
+			}()
 		}
-		for _, d := range []string{"MC_format_defect_alias.cfg", "MC_format_defect_omit.cfg"} {
-			mcRun(e, "EncV1Format", d, 3*time.Minute, true)
+		for _, d := range []string{"MC_framing_defect_swallow.cfg", "MC_framing_defect_nocarry.cfg", "MC_framing_defect_eager-last.cfg"} {
+			defect("EncFraming", d)
+		}
+		for _, d := range []string{"MC_format_defect_alias.cfg", "MC_format_defect_omit.cfg", "MC_format_defect_hdr-off-by-one.cfg", "MC_format_defect_hdr-none.cfg"} {
+			defect("EncV1Format", d)
+		}
+		for _, d := range []string{"MC_position_fmt_defect_wrap24.cfg", "MC_position_fmt_defect_last-overlaps.cfg"} {
+			defect("EncPosition", d)
 		}
 		mcPosition = mcRun(e, "EncPosition", "MC_position.cfg", 3*time.Minute, false)
-		for _, d := range []string{"MC_position_fmt_defect_wrap24.cfg", "MC_position_fmt_defect_last-overlaps.cfg"} {
-			mcRun(e, "EncPosition", d, 3*time.Minute, true)
-		}
+		dw.Wait()
 	}()
 
 	// 2. the real segment loop at small segment sizes, every enumerated reader script
@@ -907,6 +1081,9 @@ func TestCheck(t *testing.T) {
 		cs := dcases[i]
 		cs.Seed = 0
 		cs.Decs = nil
+		if len(cs.KeyName)+len(cs.DecKeyName) > 100 {
+			cs.KeyName, cs.DecKeyName = fmt.Sprintf("%.1s x %d", cs.KeyName, len(cs.KeyName)), fmt.Sprintf("%.1s x %d", cs.DecKeyName, len(cs.DecKeyName))
+		}
 		e.Nontrivial(fmt.Sprintf("doc %v", cs))
 	}
 	fmt.Printf("format/round trip: %d documents, %d decryptions recorded\n", len(dcases), ndec)
@@ -928,7 +1105,7 @@ func TestCheck(t *testing.T) {
 	e.Set("transitions", mcFraming.Generated+mcFormat.Generated+mcPosition.Generated)
 	e.Set("checker_cmd", mcFraming.Cmd+" ; "+mcFormat.Cmd)
 	e.Set("model_checks", tv.M{"EncFraming": tv.M{"distinct": mcFraming.Distinct, "generated": mcFraming.Generated, "depth": mcFraming.Depth},
-		"EncV1Format": tv.M{"distinct": mcFormat.Distinct, "generated": mcFormat.Generated}, "EncPosition": tv.M{"distinct": mcPosition.Distinct}, "defect_configs_rejected": 7})
+		"EncV1Format": tv.M{"distinct": mcFormat.Distinct, "generated": mcFormat.Generated}, "EncPosition": tv.M{"distinct": mcPosition.Distinct}, "defect_configs_rejected": 9})
 
 	// 4. TLC judges the recorded executions
 	frej, ftr, fl, _, ferr := fb.validate("TraceEncFraming", ev.Pick(6*time.Minute, 40*time.Minute))
@@ -951,6 +1128,8 @@ func TestCheck(t *testing.T) {
 	if derr != "" {
 		e.Inconclusive(derr)
 	}
+	e.Set("header_size_boundary_largest_keyname", hdrBoundary)
+	e.Set("poison_on_put", true)
 	e.Set("evaluations", int64(len(fcases)+len(dcases)+ndec+4*len(scases)))
 	e.Set("traces_validated_against_impl", int64(ftr+dtr+str))
 	e.Set("rule", "framing case = (S, message length 0..3S+1, composition of the length into read chunks with parts <= S+1, EOF style [alone / with the last data], zero-length read placement, source failure offset alone / with data, consumer buffer size), all compositions enumerated; "+
@@ -993,7 +1172,31 @@ func TestCheck(t *testing.T) {
 				}
 			}
 			key = "roundtrip:" + cs.Producer + ":" + st + ":" + slug(r.Why)
-			what += " [" + r.Trace[r.At] + "]"
+			evs := r.Trace[r.At]
+			if strings.Contains(evs, `"poisonOnly":true`) {
+				// fails only when pooled buffers are overwritten on Put: something still looks into a buffer it gave back
+				where := st
+				if j := strings.Index(evs, `"mode":"`); j >= 0 {
+					if m := evs[j+8:]; m[:strings.IndexByte(m, '"')] != "" {
+						where = m[:strings.IndexByte(m, '"')] + ":" + st
+					}
+				}
+				key = "roundtrip:poisoned-pool:" + where
+			}
+			if len(evs) > 600 {
+				evs = evs[:600] + "..."
+			}
+			what += " [" + evs + "]"
+		}
+		if kl := len(cs.KeyName) + len(cs.DecKeyName); kl > 1000 {
+			// header-size boundary case
+			key = fmt.Sprintf("roundtrip:header-size-boundary:keyname=%d", kl-len("enc-key")*btoi(cs.DecKeyName != ""))
+			what = fmt.Sprintf("key name of %d bytes (%s, %s, omit=%v; largest accepted lengths: %v): %s", kl, cs.Pair, cs.Alg, cs.Omit, hdrBoundary, r.Why)
+			for j := range r.Trace {
+				if len(r.Trace[j]) > 600 {
+					r.Trace[j] = r.Trace[j][:600] + "..."
+				}
+			}
 		}
 		if len(r.Trace) > 40 {
 			r.Trace = append(r.Trace[:20], r.Trace[r.At])
@@ -1003,6 +1206,13 @@ func TestCheck(t *testing.T) {
 
 	// 5. binding self-tests
 	selfTest(e)
+}
+
+func btoi(b bool) int {
+	if b {
+		return 1
+	}
+	return 0
 }
 
 func locate(m *batches, caseIdx int) (int, int) {
@@ -1096,7 +1306,7 @@ func runBadRefDoc(b *tv.Batch) {
 		panic(err)
 	}
 	r := &rec{b: b}
-	b.Start(tv.M{"len": len(pt), "S": segSize, "tag": tagSize, "cipher": "AES-GCM", "alg": "A256KW", "keyName": "k", "decKeyName": "", "omit": false, "producer": "ref"})
+	b.Start(tv.M{"len": len(pt), "S": segSize, "tag": tagSize, "cipher": "AES-GCM", "alg": "A256KW", "keyName": "k", "decKeyName": "", "omit": false, "producer": "ref", "hmax": segSize})
 	h, payload := encref.ParseHeader(doc)
 	r.Ev("doc", tv.M{"scheme": h.Scheme, "lines": h.Lines, "compact": h.Compact, "required": true, "hasK": true, "k": h.Manifest.KeyName, "kw": h.Manifest.Kw,
 		"cph": h.Manifest.Cph, "wfkOK": true, "npLen": 7, "macStd": h.MacStd, "macLen": len(h.Mac), "macOK": bytes.Equal(h.Mac, encref.ComputeMAC(fk, h.Signed)), "payloadLen": len(payload)})
